@@ -3976,6 +3976,10 @@ def add_measures(part):
             measure_start = pos
             measure_end_beats = min(beat_map(pos) + measure_dur, beat_map(end))
             measure_end = min(ts_end, inv_beat_map(measure_end_beats))
+            # the beat maps interpolate in floating point: 353.99999999999994 is
+            # time 354, int() below must not truncate it to 353
+            if abs(measure_end - np.round(measure_end)) < 1e-6:
+                measure_end = int(np.round(measure_end))
             # any existing measures between measure_start and measure_end
             existing_measure = next(
                 part.iter_all(Measure, measure_start, measure_end), None
